@@ -59,7 +59,9 @@ N = {"quick": 60, "thorough": 3000}
 RULE = ("60% 'grid' cases: simplex grid of dim 1/2/3 (TensorGrid, StructuredTriangleGrid, StructuredTetrahedralGrid; 1-12 cells in the quick tier, up to 48 in the thorough tier), "
         "nodes perturbed by dyadic offsets and sheared by a dyadic unimodular-ish map, dim<3 grids embedded in 3-D by a rational (quaternion) "
         "rotation + dyadic translation in 2 of 3 cases; constant SPD 3x3 tensor K = L L^T with dyadic L; linear pressure with dyadic gradient; "
-        "all boundary faces Dirichlet. 40% 'local' cases: one random rational simplex of either orientation, random face signs, SPD dxd tensor. "
+        "all boundary faces Dirichlet; magnitudes are generator dimensions: K is multiplied by 2^kexp (kexp = 0 in 30%, else uniform in -53..27, i.e. from "
+        "below SI rock permeabilities to 1e8) and all coordinates by 2^gexp (0 in 50%, else -10..10); every oracle / correspondence tolerance is RELATIVE to the "
+        "natural scale of the quantity (|K||grad p| area for fluxes, |grad p| extent for pressures, max entry for matrices), no absolute floors. 40% 'local' cases: one random rational simplex of either orientation, random face signs, SPD dxd tensor. "
         "non-trivial = anisotropic tensor (non-zero off-diagonal) or perturbed/embedded geometry; distinct = distinct case JSON")
 TRUSTED = [
     "modelled, not verified: numpy kron/reshape/dot glue inside RT0.massHdiv, np.linalg.solve / norm in MVEM.massHdiv, the construction of HB by shifted "
@@ -77,7 +79,8 @@ EXPLANATION = ("CORE (partial): theorems over Q for every dimension d: the RT0 l
                "MVEM projector consistency, symmetry, SPD. Specialised to segment / triangle / tetrahedron with explicit normals, the as-coded 1x1, 2x2, 3x3 inverses "
                "and Sylvester's criterion. Not proved: global unique solvability, numpy glue, rounding; these are bridged by the oracle (real solves) and the "
                "correspondence (real local and assembled mass matrices vs. exact rational model).")
-ASSUMPTIONS = ["simplex quality is bounded below by the generator (|det| of the edge matrix >= 1/8 of the product of edge scales) so that class-T tolerances are meaningful",
+ASSUMPTIONS = ["magnitudes are powers of two (exact scaling in binary64) within 2^-53..2^27 for K and 2^-10..2^10 for coordinates; no under/overflow occurs in this range",
+               "simplex quality is bounded below by the generator (|det| of the edge matrix >= 1/8 of the product of edge scales) so that class-T tolerances are meaningful",
                "Dirichlet conditions on the whole boundary; constant tensor; no source term"]
 
 TOL_ORACLE = 1e-8
@@ -199,8 +202,35 @@ def gen_grid(rng, tier):
             "K": fmat(gen_spd(rng, 3)), "a": fvec(a), "b": frac(dy(rng, -2, 2, 4))}
 
 
+def gen_scales(rng):
+    """magnitude of the tensor (2^kexp, 2^-53 .. 2^27: from below SI rock permeabilities to 1e8) and of the
+    coordinates (2^gexp, 2^-10 .. 2^10); powers of two, so the scaling itself is exact in binary64"""
+    kexp = 0 if rng.random() < 0.3 else rng.randint(-53, 27)
+    gexp = 0 if rng.random() < 0.5 else rng.randint(-10, 10)
+    return kexp, gexp
+
+
 def gen_case(rng, tier):
-    return gen_grid(rng, tier) if rng.random() < 0.6 else gen_local(rng, tier)
+    c = gen_grid(rng, tier) if rng.random() < 0.6 else gen_local(rng, tier)
+    c["kexp"], c["gexp"] = gen_scales(rng)
+    return c
+
+
+def eff(case):
+    """the case with the magnitudes applied: K * 2^kexp, coordinates * 2^gexp (idempotent)"""
+    if case.get("_eff"):
+        return case
+    ke, ge = int(case.get("kexp", 0)), int(case.get("gexp", 0))
+    ks, gs = Fraction(2) ** ke, Fraction(2) ** ge
+    c = dict(case)
+    c["_eff"] = True
+    c["K"] = [[frac(F(v) * ks) for v in row] for row in case["K"]]
+    if case["kind"] == "local":
+        c["coord"] = [[frac(F(v) * gs) for v in p] for p in case["coord"]]
+        c["pt"] = [frac(F(v) * gs) for v in case["pt"]]
+    else:
+        c["gmul"] = frac(gs)
+    return c
 
 
 # ----------------------------------------------------------------------------- geometry of a local case (exact)
@@ -278,6 +308,7 @@ def local_data(case):
 
 
 def local_real(case):
+    case = eff(case)
     k = _key(case)
     if k in _cache:
         return _cache[k]
@@ -312,14 +343,15 @@ def build_grid(case):
     base = sd.nodes[:d, :].copy()
     pert = [[F(v) for v in p] for p in case["pert"]]
     A = [[F(v) for v in row] for row in case["A"]]
+    gs = F(case.get("gmul", "1"))
     assert base.shape[1] == len(pert), (base.shape, len(pert))
     loc = []  # exact in-plane coordinates (Fractions)
     for i in range(base.shape[1]):
         p = [Fraction(int(round(base[a, i]))) + pert[i][a] for a in range(d)]
-        loc.append([sum(A[a][b] * p[b] for b in range(d)) for a in range(d)])
+        loc.append([gs * sum(A[a][b] * p[b] for b in range(d)) for a in range(d)])
     if case["embed"]:
         Q = [[F(v) for v in row] for row in case["embed"]["Q"]]
-        t = [F(v) for v in case["embed"]["t"]]
+        t = [gs * F(v) for v in case["embed"]["t"]]
     else:
         Q = [[Fraction(int(i == j)) for j in range(3)] for i in range(3)]
         t = [Fraction(0)] * 3
@@ -334,6 +366,7 @@ def build_grid(case):
 
 
 def grid_real(case):
+    case = eff(case)
     k = _key(case)
     if k in _cache:
         return _cache[k]
@@ -374,6 +407,7 @@ def grid_real(case):
 
 
 def impl_run(case):
+    case = eff(case)
     if case["kind"] == "local":
         r = local_real(case)
         d = case["d"]
@@ -410,6 +444,7 @@ def cell_topology(sd):
 
 
 def model_ops(case):
+    case = eff(case)
     d = case["d"]
     if case["kind"] == "local":
         r = local_data(case)
@@ -450,6 +485,7 @@ def _fm(rows):
 
 
 def model_decode(outs, case):
+    case = eff(case)
     for o in outs:
         if isinstance(o, dict) and "err" in o:
             return {"driver_error": o["err"]}
@@ -478,7 +514,7 @@ def compare(impl, model, case):
         a, b = np.array(impl[k], dtype=float), np.array(model[k], dtype=float)
         if a.shape != b.shape:
             return f"{k}: shape {a.shape} vs {b.shape}"
-        scale = max(1.0, float(np.abs(b).max()) if b.size else 1.0)
+        scale = float(np.abs(b).max()) if b.size else 0.0  # natural magnitude of the matrix: no absolute floor
         err = float(np.abs(a - b).max()) if a.size else 0.0
         if not err <= TOL_CORR * scale:
             i = np.unravel_index(int(np.nanargmax(np.abs(a - b))), a.shape) if a.size and a.ndim else ()
@@ -488,24 +524,27 @@ def compare(impl, model, case):
 
 # ----------------------------------------------------------------------------- oracle
 def _spd(M, what):
-    scale = max(1.0, float(np.abs(M).max()))
+    if not np.all(np.isfinite(M)):
+        return f"{what} has non-finite entries", "not-finite"
+    scale = float(np.abs(M).max())
     asym = float(np.abs(M - M.T).max())
     if asym > 1e-12 * scale:
         return f"{what} is not symmetric (max |M - M^T| = {asym:.3e})", "not-symmetric"
     ev = np.linalg.eigvalsh((M + M.T) / 2)
-    if not ev.min() > 1e-12 * max(1.0, ev.max()):
+    if not ev.min() > 1e-12 * ev.max():
         return f"{what} is not positive definite (min eigenvalue {ev.min():.3e})", "not-spd"
     return None
 
 
 def oracle_local(case):
+    case = eff(case)
     r = local_real(case)
     d = case["d"]
     if "exc" in r:
         return {"what": f"static helper raised {r['exc']} on simplex {case['coord']} K={case['K']} sign={case['sign']}", "key": f"local-raises-{r['exc_type']}-{d}d"}
     K, Kinv, s = r["K"], r["Kinv"], r["s"]
-    if np.abs(Kinv @ K - np.eye(d)).max() > 1e-10:
-        return {"what": f"_inv_matrix_{d}d(K) @ K != I for symmetric K = {K.tolist()}", "key": f"local-inv-{d}d"}
+    if not np.abs(Kinv @ K - np.eye(d)).max() <= 1e-10:
+        return {"what": f"_inv_matrix_{d}d(K) @ K != I for symmetric positive definite K = {K.tolist()} (kexp={case.get('kexp', 0)})", "key": f"local-inv-{d}d"}
     a = np.array([fl(v) for v in case["a"]])
     b = fl(case["b"])
     U = -K @ a
@@ -513,14 +552,14 @@ def oracle_local(case):
     pc = a @ r["c"] + b
     pf = a @ r["fcs"] + b
     # geometry sanity (independent of the code under test): divergence theorem on the generated simplex
-    assert np.abs((r["normals"] * s).sum(axis=1)).max() < 1e-12
+    assert np.abs((r["normals"] * s).sum(axis=1)).max() <= 1e-12 * np.abs(r["normals"]).max()
     for name, M in (("RT0", r["M"]), ("MVEM", r["A"])):
         bad = _spd(M, f"{name}.massHdiv local matrix (dim {d})")
         if bad:
             return {"what": bad[0] + f" coord={case['coord']} K={case['K']} sign={case['sign']}", "key": f"local-{name.lower()}-{bad[1]}-{d}d"}
         res = M @ u - s * pc + s * pf
-        scale = max(1.0, np.abs(M @ u).max(), np.abs(pf).max())
-        if np.abs(res).max() > TOL_ORACLE * scale:
+        scale = max(np.abs(M @ u).max(), np.abs(pf).max(), abs(pc))  # magnitudes of the terms of the equation
+        if not np.abs(res).max() <= TOL_ORACLE * scale:
             return {"what": f"{name} local equations M u - s p_c + s p_f = {res.tolist()} != 0 for the exact fluxes of the linear pressure a={case['a']} "
                             f"on simplex {case['coord']}, K={case['K']}, sign={case['sign']}", "key": f"local-{name.lower()}-not-exact-{d}d"}
     # MVEM projector: Pi_s D = I on polynomial gradients
@@ -529,13 +568,14 @@ def oracle_local(case):
         return {"what": f"MVEM Pi_s D != I (projector does not reproduce constant velocities), simplex {case['coord']}", "key": f"local-mvem-projector-{d}d"}
     # faces_to_cell reproduces a constant velocity at any point
     rec = r["P"][:d, :] @ u
-    if np.abs(rec - U).max() > TOL_ORACLE * max(1.0, np.abs(U).max()) or (d < 3 and np.abs(r["P"][d:, :]).max() != 0):
+    if not np.abs(rec - U).max() <= TOL_ORACLE * np.abs(U).max() or (d < 3 and np.abs(r["P"][d:, :]).max() != 0):
         return {"what": f"RT0.faces_to_cell: reconstructed velocity {rec.tolist()} != {U.tolist()} at pt={case['pt']} simplex {case['coord']} sign={case['sign']}",
                 "key": f"local-rt0-proj-{d}d"}
     return None
 
 
 def oracle_grid(case):
+    case = eff(case)
     r = grid_real(case)
     sd, K3, a, b = r["sd"], r["K3"], r["a"], r["b"]
     d = case["d"]
@@ -548,7 +588,8 @@ def oracle_grid(case):
     # the hypothesis of the exactness theorems on the real geometry: divergence theorem per cell
     for c, (faces, signs, opp) in enumerate(cell_topology(sd)):
         sn = sd.face_normals[:, faces] * np.array(signs)
-        if np.abs(sn.sum(axis=1)).max() > 1e-10 or np.abs((sd.face_centers[:, faces] - sd.cell_centers[:, [c]]) @ sn.T - sd.cell_volumes[c] * Pt).max() > 1e-10:
+        if (np.abs(sn.sum(axis=1)).max() > 1e-10 * np.abs(sn).max()
+                or np.abs((sd.face_centers[:, faces] - sd.cell_centers[:, [c]]) @ sn.T - sd.cell_volumes[c] * Pt).max() > 1e-10 * sd.cell_volumes[c]):
             return {"what": f"grid geometry violates the divergence theorem on cell {c} (hypothesis of the theorems; see C19)", "key": f"grid-geometry-{tag}"}
     for name in ("rt0", "mvem"):
         g = r[name]
@@ -560,11 +601,16 @@ def oracle_grid(case):
             return {"what": bad[0] + f" on grid d={d} n={case['n']}", "key": f"grid-{name}-mass-{bad[1]}-{tag}"}
         if np.abs(g["div"] + sd.cell_faces.T.toarray()).max() != 0:
             return {"what": f"{name.upper()} div matrix != -cell_faces^T", "key": f"grid-{name}-div-{tag}"}
-        su = max(1.0, float(np.abs(u_ex).max()))
-        sp = max(1.0, float(np.abs(p_ex).max()))
+        # natural scales: |K||grad p| * face area for fluxes, |grad p| * extent (or the pressure level) for pressures
+        na = float(np.linalg.norm(a))
+        sU = float(np.abs(K3).max()) * na
+        su = max(float(np.abs(u_ex).max()), sU * float(sd.face_areas.max()))
+        extent = float(np.abs(sd.nodes - sd.nodes.mean(axis=1, keepdims=True)).max())
+        sp = max(float(np.abs(p_ex).max()), na * extent)
         if not np.all(np.isfinite(g["u"])) or np.abs(g["u"] - u_ex).max() > TOL_ORACLE * su:
             i = int(np.nanargmax(np.abs(g["u"] - u_ex))) if np.all(np.isfinite(g["u"])) else 0
-            return {"what": f"{name.upper()} face flux {g['u'][i]!r} != exact {u_ex[i]!r} at face {i} (linear pressure, grid d={d} n={case['n']} embedded={bool(case['embed'])})",
+            return {"what": f"{name.upper()} face flux {g['u'][i]!r} != exact {u_ex[i]!r} at face {i} (linear pressure, grid d={d} n={case['n']} embedded={bool(case['embed'])} "
+                            f"K*2^{case.get('kexp', 0)} x*2^{case.get('gexp', 0)})",
                     "key": f"grid-{name}-flux-{tag}"}
         if not np.all(np.isfinite(g["p"])) or np.abs(g["p"] - p_ex).max() > TOL_ORACLE * sp:
             i = int(np.nanargmax(np.abs(g["p"] - p_ex))) if np.all(np.isfinite(g["p"])) else 0
@@ -573,16 +619,27 @@ def oracle_grid(case):
         # the assembled system is satisfied by the exact solution (independent of the linear solver)
         xe = np.concatenate([u_ex, p_ex])
         resid = g["sys"] @ xe - g["rhs"]
-        if np.abs(resid).max() > TOL_ORACLE * max(su, sp):
-            i = int(np.argmax(np.abs(resid)))
+        nf = sd.num_faces  # face rows are pressure differences, cell rows are flux sums
+        if not (np.abs(resid[:nf]).max() <= TOL_ORACLE * sp and np.abs(resid[nf:]).max() <= TOL_ORACLE * su):
+            i = int(np.argmax(np.abs(resid) / np.concatenate([np.full(nf, sp), np.full(resid.size - nf, su)])))
             return {"what": f"{name.upper()} assembled system: residual {resid[i]!r} in row {i} for the exact solution", "key": f"grid-{name}-residual-{tag}"}
-        if np.abs(g["P0"] - U[:, None]).max() > TOL_ORACLE * max(1.0, np.abs(U).max()):
+        if not np.abs(g["P0"] - U[:, None]).max() <= TOL_ORACLE * sU:
             return {"what": f"{name.upper()} project_flux: cell velocity {g['P0'][:, 0].tolist()} != exact {U.tolist()}", "key": f"grid-{name}-p0flux-{tag}"}
     return None
 
 
 def oracle(case):
-    return oracle_local(case) if case["kind"] == "local" else oracle_grid(case)
+    o = oracle_local(case) if case["kind"] == "local" else oracle_grid(case)
+    if (o is not None and "raises-AssertionError" in o["key"] and "AssertionError: G " in o["what"]
+            and (case.get("kexp", 0) or case.get("gexp", 0))):
+        # MVEM.massHdiv's consistency assertion np.allclose(G, F D) has an ABSOLUTE tolerance (1e-8): when |G| = |K| V / diam^2
+        # is large the rounding of F D alone exceeds it. Classified as that specific defect only if the very same case with
+        # order-one magnitudes passes the whole oracle (so a wrong F, D or G still gets the generic key).
+        if oracle(dict(case, kexp=0, gexp=0)) is None:
+            o = {"what": "MVEM.massHdiv raises AssertionError (np.allclose(G, F D) with absolute tolerance 1e-8) for a large-magnitude tensor: "
+                         f"K*2^{case.get('kexp', 0)}, coordinates*2^{case.get('gexp', 0)}, dim {case['d']}; the same case with order-one magnitudes is exact",
+                 "key": "mvem-assert-absolute-tolerance-large-G"}
+    return o
 
 
 # ----------------------------------------------------------------------------- evidence helpers
@@ -595,6 +652,8 @@ def nontrivial(case):
 
 
 def shrink_candidates(case):
+    if case.get("gexp", 0):
+        yield dict(case, gexp=0)
     if case["kind"] != "grid":
         return
     d = case["d"]
@@ -621,13 +680,18 @@ def shrink_candidates(case):
 def stats(cases, impl_outs):
     out = {"local": {"1": 0, "2": 0, "3": 0}, "grid": {"1": 0, "2": 0, "3": 0}, "grid_embedded": 0, "grid_cells_total": 0, "anisotropic": 0,
            "negatively_oriented_local": 0, "mixed_signs_local": 0}
+    out["kexp_hist"] = {"<=-40": 0, "-39..-14": 0, "-13..-1": 0, "0": 0, "1..27": 0}
+    out["gexp_nonzero"] = 0
     for c in cases:
         out[c["kind"]][str(c["d"])] += 1
+        ke = int(c.get("kexp", 0))
+        out["kexp_hist"]["<=-40" if ke <= -40 else "-39..-14" if ke <= -14 else "-13..-1" if ke < 0 else "0" if ke == 0 else "1..27"] += 1
+        out["gexp_nonzero"] += int(c.get("gexp", 0)) != 0
         K = c["K"]
         out["anisotropic"] += any(F(K[i][j]) != 0 for i in range(len(K)) for j in range(len(K)) if i != j)
         if c["kind"] == "grid":
             out["grid_embedded"] += bool(c["embed"])
-            k = _key(c)
+            k = _key(eff(c))
             if k in _cache:
                 out["grid_cells_total"] += int(_cache[k]["sd"].num_cells)
         else:
